@@ -74,6 +74,10 @@ var (
 func c20Handler(w http.ResponseWriter, r *http.Request) {
 	// /c20/<phase>/<class><idx>
 	parts := strings.Split(strings.TrimPrefix(r.URL.Path, "/"), "/")
+	if r.URL.Path == "/c20health" {
+		// the health-check path of some configuration variants: a check that takes a little while
+		time.Sleep(15 * time.Millisecond)
+	}
 	if len(parts) < 3 {
 		w.WriteHeader(200)
 		return
@@ -124,10 +128,19 @@ func c20Config(variant int, seq int) *config.PikeConfig {
 	} else {
 		srv.CompressMinLength = "2kb"
 	}
+	// the definition of the upstream (which stays in use under the same name) changes with every
+	// second reload: its health check, then its policy
+	up := config.UpstreamConfig{Name: "c20up", Servers: []config.UpstreamServerConfig{{Addr: c20Up.URL()}}}
+	switch variant % 4 {
+	case 2:
+		up.HealthCheck = "/c20health"
+	case 3:
+		up.HealthCheck, up.Policy = "/c20health", "first"
+	}
 	return &config.PikeConfig{
 		Compresses: []config.CompressConfig{cp},
 		Caches:     []config.CacheConfig{{Name: cacheName, Size: 64, HitForPass: "1s"}},
-		Upstreams:  []config.UpstreamConfig{{Name: "c20up", Servers: []config.UpstreamServerConfig{{Addr: c20Up.URL()}}}},
+		Upstreams:  []config.UpstreamConfig{up},
 		Locations:  []config.LocationConfig{loc},
 		Servers:    []config.ServerConfig{srv},
 	}
